@@ -3,6 +3,7 @@ import CdsVerif.Gen.Dispatch
 import CdsVerif.Driver.SeqEval
 import CdsVerif.Driver.Replay
 import CdsVerif.Algo.Spin.Model
+import CdsVerif.Algo.Treiber.Model
 import CdsVerif.Algo.Ring.Model
 open CdsVerif.Driver
 
@@ -69,6 +70,10 @@ def main (args : List String) : IO UInt32 := do
   | ["lincheck"] => lcLoop stdin {}; return 0
   | ["eval"] => evalLoop stdin; return 0
   | ["seqeval"] => seqLoop stdin; return 0
+  | ["replay", "treiber"] =>
+    replayLoop stdin CdsVerif.Algo.Treiber.model (fun _ => CdsVerif.Algo.Treiber.init)
+      (fun loc => loc == "top" || (loc.startsWith "n" && !(loc.any (· == '+')))) (fun _ => true) none
+    return 0
   | ["replay", "spin"] =>
     replayLoop stdin CdsVerif.Algo.Spin.model (fun _ => CdsVerif.Algo.Spin.init)
       (fun loc => loc.startsWith "L") (fun _ => true) none
